@@ -267,6 +267,8 @@ pub enum ExpObs {
 pub enum Exp {
     /// must return; subject's new bits and the expected observation
     Ok { m: Bits, obs: ExpObs },
+    /// must return a vector of this length; its bits are not specified
+    OkLenOnly(usize),
     /// must panic (in every profile)
     Panic,
     /// must panic when debug assertions are on, unspecified otherwise
@@ -318,9 +320,8 @@ pub fn model(kind: K, m: &Bits, a: &Act) -> Exp {
                 return Exp::Panic;
             }
             if n == 0 {
-                // no previous top bit: only the length is specified; the implementation documents
-                // zero fill, which is what the model uses, flagged by callers via `sign_extend_empty`
-                return ok(m.resized(*l, false));
+                // no previous top bit: the property only fixes the resulting length
+                return Exp::OkLenOnly(*l);
             }
             ok(m.resized(*l, m.0[n - 1]))
         }
